@@ -1,72 +1,4 @@
-(* C09 findings: the full data-race-freedom statement (all eight methods) is false of the faithful model.
-   D9: DefinedTemplates reads the Tree field of every associated text template under text/template's
-   muTmpl only, while the failure path of escapeTemplate writes it under ns.mu. *)
-From V Require Import lib.Base gen.GenLocks model.Conc spec.ConcSpec proofs.ConcFacts props.C09.
-From Coq Require Import Arith.
-Local Open Scope nat_scope.
-
-Definition d9_exec : op := [Acq NsMu; Wr LTextTree; Rel NsMu].      (* a failing first execution *)
-Definition d9_defined : op := [Acq MuTmpl; Rd LTextTree; Rel MuTmpl]. (* DefinedTemplates *)
-Definition d9_threads : list thread := [[d9_exec]; [d9_defined]].
-Definition d9_sched : list nat := [0; 0; 0; 1; 1; 1].
-Definition d9_trace : list (nat * action) :=
-  [(0, Acq NsMu); (0, Wr LTextTree); (0, Rel NsMu); (1, Acq MuTmpl); (1, Rd LTextTree); (1, Rel MuTmpl)].
-
-Lemma d9_trace_eq : trace_of d9_threads d9_sched = Some d9_trace.
-Proof. vm_compute. reflexivity. Qed.
-
-Lemma d9_conforms : forall th, In th d9_threads -> forall o, In o th ->
-  exists n, In n api_methods /\ conforms (method_entries n) o.
-Proof.
-  intros th [<- | [<- | []]] o [<- | []].
-  - exists (B "Template.Execute"). split; [simpl; tauto|]. apply conforms_b_conforms. vm_compute. reflexivity.
-  - exists (B "Template.DefinedTemplates"). split; [simpl; tauto|]. apply conforms_b_conforms. vm_compute. reflexivity.
-Qed.
-
-Lemma d9_mutex_ok : mutex_ok d9_trace.
-Proof.
-  intros i e H.
-  do 6 (destruct i as [|i]; [inversion H; subst; vm_compute; first [reflexivity | exact I]|]).
-  destruct i; discriminate.
-Qed.
-
-Lemma d9_publication : publication_order c09_policy d9_trace.
-Proof.
-  intros i j a t t' l m P Hi Hj Hne Hout Haj Ha Hlast.
-  pose proof (c09_published_is_ns _ _ P) as ->.
-  exfalso.
-  do 6 (destruct a as [|a]; [simpl in Ha; inversion Ha; subst;
-        do 6 (destruct j as [|j]; [simpl in Hj; inversion Hj|]); destruct j; discriminate|]).
-  destruct a; discriminate.
-Qed.
-
-Lemma d9_hb_same_thread : forall i j, hb d9_trace i j ->
-  exists t x y, nth_error d9_trace i = Some (t, x) /\ nth_error d9_trace j = Some (t, y).
-Proof.
-  intros i j H. induction H as [i j t a b Hij Hi Hj | i j t t' m Hij Hi Hj | i j k H1 IH1 H2 IH2].
-  - exists t, a, b. split; assumption.
-  - exfalso.
-    do 6 (destruct i as [|i]; [simpl in Hi; inversion Hi; subst;
-          do 6 (destruct j as [|j]; [simpl in Hj; try discriminate; try (inversion Hj; lia)|]); destruct j; discriminate|]).
-    destruct i; discriminate.
-  - destruct IH1 as [t [x [y [A1 A2]]]]. destruct IH2 as [t' [y' [z [B1 B2]]]].
-    rewrite A2 in B1. inversion B1; subst. exists t', x, z. split; assumption.
-Qed.
-
-Lemma d9_race : race d9_trace.
-Proof.
-  exists 1, 4, 0, (Wr LTextTree), 1, (Rd LTextTree), LTextTree.
-  split; [lia|]. split; [reflexivity|]. split; [reflexivity|]. split; [discriminate|].
-  split; [right; reflexivity|]. split; [left; reflexivity|]. split; [left; exists LTextTree; reflexivity|].
-  intros H. apply d9_hb_same_thread in H as [t [x [y [A B]]]]. simpl in A, B. congruence.
-Qed.
-
-Lemma C09_drf_refuted : ~ C09_drf_full_statement.
-Proof.
-  intros H. apply (H d9_threads d9_sched d9_trace d9_conforms).
-  - exists d9_trace. split; [exact d9_trace_eq | exact d9_mutex_ok].
-  - exact d9_trace_eq.
-  - exact d9_publication.
-  - exact d9_race.
-Qed.
-Print Assumptions C09_drf_refuted.
+(* C09 findings.  D9 (DefinedTemplates read the Tree field of every associated text template under
+   text/template's muTmpl only, while the failure path of escapeTemplate wrote it under ns.mu) was
+   repaired by a fix: commit; its refutation witness was removed with it: the full statement is now
+   the theorem C09_drf_all_methods of props/C09.v. *)
